@@ -28,9 +28,8 @@ CONSTANTS
   Sizes = {%(sizes)s}
   Metas = {%(metas)s}
   Depth = %(depth)d
-  WithReopen = %(reopen)s
-  WithScan = %(scan)s
-  WithSeen = %(seen)s
+  ReopenCaps = {%(reopen)s}
+  Ops = {%(ops)s}
   GenCap = 0
   GenLimit = 0
 INVARIANT Emit
@@ -39,7 +38,7 @@ CHECK_DEADLOCK FALSE
 
 TRACE_CFG = """SPECIFICATION TraceSpec
 CONSTANT Mailbox = {%(mbs)s}
-INVARIANTS IdsUnique CapInv SizeInv ArrivalInv
+INVARIANTS IdsUnique %(capinv)s SizeInv ArrivalInv
 POSTCONDITION TraceAccepted
 CHECK_DEADLOCK FALSE
 """
@@ -73,10 +72,11 @@ def tla_set(xs):
     return ", ".join(json.dumps(x) if isinstance(x, str) else str(x) for x in xs)
 
 
-def gen_cfg(nmb, sizes, metas, depth, reopen=False, scan=True, seen=True):
-    b = lambda x: "TRUE" if x else "FALSE"
+def gen_cfg(nmb, sizes, metas, depth, reopen=(), scan=True, seen=True, ops=None):
+    if ops is None:
+        ops = ["add", "remove", "purge"] + (["scan"] if scan else []) + (["seen"] if seen else [])
     return GEN_CFG % dict(mbs=tla_set(range(nmb)), sizes=tla_set(sizes), metas=tla_set(metas), depth=depth,
-                          reopen=b(reopen), scan=b(scan), seen=b(seen))
+                          reopen=tla_set(reopen), ops=tla_set(ops))
 
 
 def with_probes(ops, unit, every=1):
@@ -97,13 +97,13 @@ def is_nontrivial(ops):
     return "add" in kinds and any(k in kinds for k in ("remove", "purge", "seen", "scan", "reopen")) or kinds.count("add") >= 2
 
 
-def replay_and_validate(run, vh, behaviours, label, what_prefix):
+def replay_and_validate(run, vh, behaviours, label, what_prefix, capinv=True):
     """stage 4 + 5 for a list of concrete store behaviours"""
     if not behaviours:
         return
     names = sorted({n for b in behaviours for n in b["names"]})
     tf = run.harness_parallel(vh, "store", behaviours, label)
-    res = run.validate("MailstoreTrace", TRACE_CFG % dict(mbs=tla_set(names)), tf)
+    res = run.validate("MailstoreTrace", TRACE_CFG % dict(mbs=tla_set(names), capinv="CapInv" if capinv else ""), tf)
     run.cov["evaluations"] += len(behaviours)
     byid = {b["id"]: b for b in behaviours}
     for r in res["rejections"]:
@@ -168,3 +168,69 @@ def c07(run, args):
                        "distinct = distinct abstract operation sequence")
     run.assumptions += ["message content compared by sha256 prefix (64 bit) and length", "mailbox name classes: plain, with @, special characters, "
                         "pair sharing the lock bucket (sha1 prefix 3), pair sharing the level-2 directory (sha1 prefix 6)"]
+
+
+# --------------------------------------------------------------------------- C08
+def c08(run, args):
+    if args.replay:
+        return replay_file(run, args)
+    quick = run.tier == "quick"
+    rng = random.Random(run.seed)
+    vh = run.build_harness()
+    # the contract with every cap x limit combination, all eviction properties as action properties
+    run.model_check("MCMailstore", MC_CFG % dict(caps="0, 1, 2", limits="0, 3, 5", maxadds=3 if quick else 4), label="MCMailstore(caps x limits)")
+    # size unit 300 bytes: sizes 300/600/900; limits 1 KiB and 2 KiB; caps 0..3
+    bfs = run.generate("GenMailstore", gen_cfg(2, [1, 2, 3], [1], 4 if quick else 5, scan=False, seen=False))
+    sim = run.generate("GenMailstore", gen_cfg(3, [1, 2, 3], [1], 120 if quick else 400, scan=False, seen=False),
+                       simulate={"num": 100, "depth": 121 if quick else 401})
+    sim = sim[:60 if quick else 600]
+    count_distinct(run, bfs + sim)
+    run.cov["exhaustive"] = True
+    caps = [0, 1, 2, 3]
+    mem_cfgs = [(c, k) for c in caps for k in (0, 1, 2)]
+    file_cfgs = [(c, 0) for c in caps]
+
+    def cfgs_for(i, st):
+        all_ = mem_cfgs if st == "mem" else file_cfgs
+        if not quick:
+            return all_
+        # quick: two configurations per behaviour and store, rotating so that all are covered
+        return [all_[(i + run.seed) % len(all_)], all_[(i * 7 + 3 + run.seed) % len(all_)]]
+
+    beh = concretise(run, bfs, ["mem", "file"], cfgs_for, 300, rng, "bfs")
+    beh += concretise(run, sim, ["mem", "file"], lambda i, st: (mem_cfgs if st == "mem" else file_cfgs), 300, rng, "sim", probe_every=10)
+    run.cov["samples"] = [bfs[len(bfs) // 3], sim[0][:12]] if bfs and sim else []
+    replay_and_validate(run, vh, beh, "c08", "C08 cap/size-limit eviction")
+    run.cov["rule"] = ("TLC enumerates every add/remove/purge sequence (sizes 300/600/900 bytes, 2 mailboxes) up to the stated depth and simulates long "
+                       "histories (drift); each runs on the memory store under cap x maxkb in {0,1,2,3} x {0,1,2 KiB} and on the file store under each cap; "
+                       "after every operation the whole store must equal the contract state (most recent messages kept, globally oldest-first size eviction, "
+                       "only as much as necessary, new message retrievable).  non-trivial/distinct as in C07")
+    run.assumptions += ["sizes within the exact byte accounting of the store (Size() == len(source))", "quick tier runs two of the cap x limit combinations per enumerated sequence (rotating), thorough all"]
+
+
+# --------------------------------------------------------------------------- C10
+def c10(run, args):
+    if args.replay:
+        return replay_file(run, args)
+    quick = run.tier == "quick"
+    rng = random.Random(run.seed)
+    vh = run.build_harness()
+    run.model_check("MCMailstore", MC_CFG % dict(caps="0, 2", limits="0", maxadds=3 if quick else 4), label="MCMailstore(caps)")
+    bfs = run.generate("GenMailstore", gen_cfg(2, [1], [1], 4 if quick else 5, reopen=[0, 1, 2], scan=False, seen=True))
+    # one mailbox, deliveries and reopen with every cap only, deeper: reaches mailboxes several messages over a lowered cap
+    bfs += run.generate("GenMailstore", gen_cfg(1, [1], [1], 6 if quick else 8, reopen=[0, 1, 2, 3], ops=["add"]))
+    # keep only sequences with at least one reopen that is followed or preceded by a mutation
+    bfs = [b for b in bfs if any(o["op"] == "reopen" for o in b) and any(o["op"] == "add" for o in b)]
+    sim = run.generate("GenMailstore", gen_cfg(3, [1, 2], [0, 1], 40 if quick else 80, reopen=[0, 1, 2, 3]),
+                       simulate={"num": 100, "depth": 41 if quick else 81})
+    sim = sim[:80 if quick else 800]
+    count_distinct(run, bfs + sim)
+    run.cov["exhaustive"] = True
+    beh = concretise(run, bfs, ["file"], lambda i, st: [(0, 0), (2, 0)] if not quick else [((i + run.seed) % 2 * 2, 0)], 500, rng, "bfs")
+    beh += concretise(run, sim, ["file"], lambda i, st: [(0, 0), (3, 0)], 500, rng, "sim", probe_every=4)
+    run.cov["samples"] = [bfs[len(bfs) // 3], sim[0][:12]] if bfs and sim else []
+    replay_and_validate(run, vh, beh, "c10", "C10 durability across reopen", capinv=False)
+    run.cov["rule"] = ("TLC enumerates every mutator sequence with a close-and-reopen of the file store inserted at every position (contract: reopen is a "
+                       "stuttering step: same ids, order, metadata, seen flags, sizes, content; the reopened store may be configured with another cap, which applies from the next delivery on), plus long simulated histories with many reopen points; "
+                       "all operations after a reopen (deliveries, cap eviction, retention scan) are validated against the contract like any other")
+    run.assumptions += ["quick/thorough: reopen = a new file.Store on the same path in the same process; the id counter restarting with the process is covered by the thorough-tier child-process variant when built"]
